@@ -55,7 +55,7 @@ func c06Specs(tier string, seed int) []c06Spec {
 	if tier == "thorough" {
 		d = 4
 	}
-	soils := []string{"loam12", "sand20", "silt5st", "one", "two", "three", "stony9", "peat12", "peat5", "clay20", "expl12", "silt20"}
+	soils := []string{"loam12", "sand20", "silt5st", "one", "two", "three", "stony9", "peat12", "peat5", "clay20", "expl12", "silt20", "mixedte12", "mixedet12"}
 	for _, so := range soils {
 		n := soilN(so)
 		for _, gw := range []int{99, 1, max(1, n/2), n, n + 1} {
